@@ -108,6 +108,10 @@ impl Listing {
     }
 
     pub fn renum(&mut self, new_start: u16, old_start: u16, step: u16) -> Result<(), Error> {
+        if step == 0 {
+            // every renumbered line would get the same number
+            return Err(error!(IllegalFunctionCall));
+        }
         let mut changes: HashMap<u16, u16> = HashMap::default();
         let mut old_end: u16 = LineNumber::max_value() + 1;
         let mut new_num = new_start;
